@@ -53,11 +53,111 @@ def c04(run):
     run.exhaustive = True
 
 
+# ------------------------------------------------------------------------------------------------ C17
+def c17(run):
+    run.rule = ("GEN: (all) every token string of length <= N over the 25 syntactic classes (N=3 quick, 4 thorough); (viable) every viable "
+                "sentence prefix up to M tokens and every sentence with one token deleted/inserted/replaced/transposed at every position "
+                "(M=4 quick, 5 thorough) plus seeded random sentences up to 40 tokens; (recover) all programs of <= K one-line statements "
+                "from 6 good and 9 broken forms (K=3 quick, 4 thorough). L1 verdict Derives /\\ StaticOk vs bcl.Parse/Interpret: error iff rejected, "
+                ">= 1 well-formed diagnostic on rejection, none on acceptance, no results on rejection, a diagnostic on the line of every broken later statement. "
+                "Non-trivial = at least 3 tokens; distinct by source text.")
+    q = run.quick
+    run.gen_replay("Gen_Gram", gen_cfg(dict(Scope="all", MaxLen=3 if q else 4)), ["replay-gram"], "C17:all")
+    run.gen_replay("Gen_Gram", gen_cfg(dict(Scope="viable", MaxLen=4 if q else 5)), ["replay-gram"], "C17:viable")
+    run.gen_replay("Gen_Gram", gen_cfg(dict(Scope="viable", MaxLen=40)), ["replay-gram"], "C17:sim",
+                   simulate=10 ** 9, depth=42, workers=1, max_cases=20000 if q else 400000)
+    run.gen_replay("Gen_Gram", gen_cfg(dict(Scope="recover", MaxLen=3 if q else 4), invariants=("EmitR", "GoodOk")), ["replay-gram"], "C17:recover")
+    run.exhaustive = False
+
+
+# ------------------------------------------------------------------------------------------------ C05 / C15
+def bind_stages(run, pid, only):
+    inv = ("Emit", "Lemmas")
+    if run.quick:
+        run.gen_replay("Gen_Bind", gen_cfg(dict(Scope="fields", MaxFields=2, Small=True), invariants=inv), ["replay-bind", "--only", only], pid + ":fields")
+    else:
+        run.gen_replay("Gen_Bind", gen_cfg(dict(Scope="fields", MaxFields=2, Small=False), invariants=inv), ["replay-bind", "--only", only], pid + ":fields")
+        run.gen_replay("Gen_Bind", gen_cfg(dict(Scope="fields", MaxFields=3, Small=True), invariants=inv), ["replay-bind", "--only", only], pid + ":fields3")
+    run.gen_replay("Gen_Bind", gen_cfg(dict(Scope="targets", MaxFields=2, Small=True)), ["replay-bind", "--only", only], pid + ":targets")
+
+
+def c05(run):
+    run.rule = ("GEN: every descriptor of <= 2 fields (thorough: also <= 3 with the reduced pools) from a 23-entry field pool (all supported kinds, colliding names, tags incl. "
+                "a shared tag, unexported, interface, nested structs with/without Name, unsupported kinds) x every block of <= 2 entries over 9 key "
+                "spellings x 7 values (incl. extreme int/float atoms) and named/unnamed nested blocks; where BclBindRules says the block is storable "
+                "the struct built by Bind and by Unmarshal of the rendered BCL text must be deeply equal to the specified target; plus struct/slice "
+                "targets of declared types (type-name rule) and slice targets with previous elements. Non-trivial = two or more entries or a non-struct target.")
+    bind_stages(run, "C05", "c05")
+    run.exhaustive = True
+
+
+def c15(run):
+    run.rule = ("GEN: the C05 descriptor x block space plus every binding kind (struct, slice of 0..2 blocks, nil) x 16 target kinds (nil, non-pointer, "
+                "nil pointer, pointers to int/string/map/slice of int/slice of pointers/pointer/array/interface/func/chan, declared and anonymous struct types); "
+                "Bind must not panic, must return an error wherever BclBindRules says a field, the name or the target cannot take the data unchanged "
+                "(missing/unexported/mismatching/nil/non-struct/colliding), and must leave a slice target untouched on error. "
+                "Non-trivial = two or more entries or a non-struct target.")
+    bind_stages(run, "C15", "c15")
+    run.exhaustive = True
+
+
+# ------------------------------------------------------------------------------------------------ C16
+def c16(run):
+    run.rule = ("GEN: bind cases (descriptor x block) with the specification's flag 'sens' = two or more failing entries or keys colliding on one field "
+                "(the inputs whose outcome depends on map order in an order-sensitive implementation), programs of the C02/C04 families and rejected token "
+                "strings with several diagnostics. Each call is repeated R times in one process (R=12 quick, 30 thorough): error text, target, dump bytes, output, "
+                "diagnostics, blocks and binding must be identical, the dump must be unchanged by Execute and a second Execute must agree; then three fresh "
+                "processes with GOMAXPROCS 1, 4, 16 must produce the same digest for every case. Non-trivial = sens for bind cases, the family's rule otherwise.")
+    reps = 12 if run.quick else 30
+    import os
+    digs = []
+    stages = [("Gen_Bind", gen_cfg(dict(Scope="fields", MaxFields=2, Small=True)), "C16:bind", None),
+              ("Gen_Prog", gen_cfg(dict(Scope="bind", MaxItems=3)), "C16:prog-bind", None),
+              ("Gen_Prog", gen_cfg(dict(Scope="blocks", MaxItems=2)), "C16:prog-blocks", None),
+              ("Gen_Gram", gen_cfg(dict(Scope="recover", MaxLen=3), invariants=("EmitR",)), "C16:diagnostics", None)]
+    if not run.quick:
+        stages.append(("Gen_Gram", gen_cfg(dict(Scope="all", MaxLen=3)), "C16:tokens", None))
+    for mod, c, stage, _ in stages:
+        # one generation, kept in a file, replayed by several processes
+        path = os.path.join(run.scratch, stage.replace(":", "_") + ".cases")
+        import subprocess
+        with open(path, "w") as f:
+            p = subprocess.Popen(["cat"], stdin=subprocess.PIPE, stdout=f, text=True)
+            r = run.tlc(mod, c, consumer=p, label=stage + ":gen")
+            p.stdin.close()
+            p.wait()
+        if not r["ok"]:
+            raise Inconclusive("generator failed in " + stage)
+        d0 = path + ".dig0"
+        run.vh(["replay-det", "--reps", str(reps), "--digests", d0], stage + ":replay", input_path=path)
+        ref = open(d0).read()
+        for procs in (1, 4, 16):
+            d = path + ".dig%d" % procs
+            exe = vlib.build_harness()
+            env = dict(os.environ, GOMAXPROCS=str(procs))
+            pr = subprocess.run([exe, "replay-det", "--reps", "1", "--digests", d, "--in", path, "--result", path + ".r%d" % procs], env=env,
+                                stdout=subprocess.PIPE, stderr=subprocess.STDOUT, text=True)
+            if pr.returncode != 0:
+                raise Inconclusive("digest worker failed: " + pr.stdout[-2000:])
+            if open(d).read() != ref:
+                a, b = ref.splitlines(), open(d).read().splitlines()
+                diff = [x for x, y in zip(a, b) if x != y][:3]
+                run.violations.append(dict(why="outcome digest differs between processes (GOMAXPROCS=%d)" % procs, shape="nondeterministic:process",
+                                           case=dict(stage=stage, digests=diff), observed=diff, confirmed=True, stage=stage))
+        run.extra.setdefault("fresh_process_runs", 0)
+        run.extra["fresh_process_runs"] += 3
+    run.exhaustive = False
+
+
 CHECKS = {
     "C01": (c01, "model_checking"),
     "C02": (c02, "model_checking"),
     "C03": (c03, "model_checking"),
     "C04": (c04, "model_checking"),
+    "C05": (c05, "model_checking"),
+    "C15": (c15, "model_checking"),
+    "C16": (c16, "model_checking"),
+    "C17": (c17, "model_checking"),
 }
 
 
